@@ -442,12 +442,32 @@ func TestC10PreEncrypted(t *testing.T) {
 			}
 			write(fmt.Sprintf("V300/%d.m4s", i+1), sr.Body)
 		}
+		// the audio track likewise (served segments are already cut to the audio frame grid)
+		if err := os.MkdirAll(filepath.Join(dir, "A48"), 0o755); err != nil {
+			t.Fatal(err)
+		}
+		air := src.Srv.Get(ls.URL(parts, "testpic_2s", "A48/init.mp4", 100000))
+		if air.Code != 200 {
+			t.Fatalf("HARNESS: encrypted audio init -> %v", air)
+		}
+		write("A48/init.mp4", air.Body)
+		for i := 0; i < 4; i++ {
+			sr := src.Srv.Get(ls.URL(parts, "testpic_2s", fmt.Sprintf("A48/%d.m4s", i), int64(i)*2000+2001))
+			if sr.Code != 200 {
+				t.Fatalf("HARNESS: encrypted audio segment -> %v", sr)
+			}
+			write(fmt.Sprintf("A48/%d.m4s", i+1), sr.Body)
+		}
 		write("Manifest.mpd", []byte(`<?xml version="1.0" encoding="utf-8"?>
 <MPD xmlns="urn:mpeg:dash:schema:mpd:2011" profiles="urn:mpeg:dash:profile:isoff-live:2011" minBufferTime="PT2S" type="static" mediaPresentationDuration="PT8S">
   <Period id="p0" start="PT0S">
     <AdaptationSet contentType="video" mimeType="video/mp4" segmentAlignment="true" startWithSAP="1">
       <SegmentTemplate startNumber="1" initialization="$RepresentationID$/init.mp4" duration="2" media="$RepresentationID$/$Number$.m4s"/>
       <Representation id="V300" codecs="avc1.64001e" bandwidth="300000" width="640" height="360"/>
+    </AdaptationSet>
+    <AdaptationSet contentType="audio" mimeType="audio/mp4" lang="en" segmentAlignment="true" startWithSAP="1">
+      <SegmentTemplate startNumber="1" initialization="$RepresentationID$/init.mp4" duration="2" media="$RepresentationID$/$Number$.m4s"/>
+      <Representation id="A48" codecs="mp4a.40.2" bandwidth="48000" audioSamplingRate="48000"/>
     </AdaptationSet>
   </Period>
 </MPD>
@@ -461,7 +481,11 @@ func TestC10PreEncrypted(t *testing.T) {
 			t.Fatalf("HARNESS: pre-encrypted asset is not served without DRM: %v", plain)
 		}
 		for _, drm := range []string{"eccp_cenc", "eccp_cbcs", "drm_EZDRM-1-key-cbcs-test", "drm_EZDRM-2-keys-cbcs-test"} {
-			for _, file := range []string{"Manifest.mpd", "V300/5.m4s"} {
+			// the audio init may be answered unchanged; a second protection layer around it is not acceptable
+			if r := srv.Get(ls.URL([]string{drm}, "preenc", "A48/init.mp4", 13000)); r.Code == 200 && !bytes.Equal(r.Body, air.Body) {
+				run.Fail(t, map[string]any{"url": "A48/init.mp4 with " + drm, "asset_scheme": scheme}, hx.V("pre-encrypted-not-refused", "audio init of an asset already encrypted with %s is served modified (%d bytes, stored %d) with %s", scheme, len(r.Body), len(air.Body), drm))
+			}
+			for _, file := range []string{"Manifest.mpd", "V300/5.m4s", "A48/5.m4s"} {
 				for _, typ := range [][]string{nil, {"segtimeline_1"}} {
 					u := ls.URL(append(append([]string{}, typ...), drm), "preenc", strings.Replace(file, "5.m4s", map[bool]string{true: "900000.m4s", false: "5.m4s"}[len(typ) > 0], 1), 13000)
 					r := srv.Get(u)
